@@ -14,12 +14,18 @@ def gen_cases(rng, n):
                 for extra in [{}, {"collect_errors": True}, {"no_data_loss": True}]:
                     cls, src = dc.node_class(kind, d, base, extra)
                     classes[cls.__name__] = (kind, d, src)
+                if base == "Schema":
+                    cls, src = dc.node_class(kind, d, base, {}, optional_v=True)
+                    classes[cls.__name__] = (kind + "+optv", d, src)
     names = list(classes)
     while len(cases) < n:
         name = rng.choice(names)
         kind, d, _ = classes[name]
         depth = rng.randint(1, 6)
-        v = dc.tree_input(rng, kind, depth, bad_leaf=rng.random() < 0.15, width=3)
+        optv = kind.endswith("+optv")
+        kind = kind.split("+")[0]
+        # (in the union kind an empty mapping is also a valid int: the int argument may take a too-deep one)
+        v = dc.tree_input(rng, kind, depth, bad_leaf=rng.random() < 0.15, width=3, empty_leaf=optv and kind != "union")
         if rng.random() < 0.1:
             v = [v]                    # a list wrapping a single mapping is unwrapped by the converter
         cases.append(dict(cls=name, ropts=None, data=v, kind=kind, max_depth=d))
@@ -33,7 +39,7 @@ def oracle(case, out):
         return None
     if "x" in repr(v):          # contains the invalid leaf: rejected for another reason
         return None
-    n = dc.nesting(v)
+    n = dc.nesting(v, case["kind"])
     d = case["max_depth"]
     want = d is None or n <= d
     if out[0] == "ok" and not want:
@@ -66,6 +72,35 @@ def exp_cost_finding():
     return counts[-1] >= 2.5 * counts[-2] >= 2.5 * 2.5 * counts[-3]
 
 
+def strict_cost_check():
+    """a recursive class reached through a union, declared fully strict (both flags): the staged union has nothing to retry,
+    a chain with one invalid leaf at the bottom must cost a number of leaf conversions linear in its depth"""
+    out = []
+    for ann in ("Optional['%s'] = None", "Union[int, '%s', None] = None"):
+        name = dyn.fresh("Sc")
+        src = ("_cnt_%s = [0]\nclass Leaf%s(int, Rule):\n    @classmethod\n    def pre_validate(cls, value, context=None):\n"
+               "        _cnt_%s[0] += 1\n        return value\n"
+               "class %s(Schema):\n    __options__ = Options(no_explicit_cast=True, no_data_loss=True)\n    v: Leaf%s\n    nxt: %s\n"
+               % (name, name, name, name, name, ann % name))
+        dyn.declare(src)
+        cls, cnt = dyn.get(name), dyn.get("_cnt_" + name)
+        counts = []
+        for n in (3, 6, 9, 12):
+            d = {"v": "x"}
+            for _ in range(n - 1):
+                d = {"v": 1, "nxt": d}
+            cnt[0] = 0
+            try:
+                cls.__from__(d)
+            except Exception:
+                pass
+            counts.append(cnt[0])
+        out.append((ann, counts))
+        if counts[-1] > 8 * 12:
+            return "fully strict class %s: leaf conversions for an invalid leaf at depth 3 / 6 / 9 / 12: %r (not linear)\n%s" % (name, counts, src), out
+    return None, out
+
+
 def main(tier, seed):
     warnings.simplefilter("ignore")
     res = core.Result(PID, tier, seed)
@@ -87,6 +122,10 @@ def main(tier, seed):
         for c, o, msg in bad[:3]:
             res.violations.append(dict(case=repr(dict(cls_source=classes[c["cls"]][2], data=c["data"])), observed=repr(o)[:300],
                                        what="depth limit not exact: " + msg))
+    msg, cost_table = strict_cost_check()
+    res.cov["leaf_conversions_strict_class_depth_3_6_9_12"] = [c for _, c in cost_table]
+    if msg:
+        res.violations.append(dict(case=repr(dict(kind="strict-cost")), observed=msg, what=msg))
     findings.replay_all(res, PID, {"C18-exp-cost": exp_cost_finding})
     res.cov["leaf_conversions_invalid_chain_depth_1_to_8"] = getattr(exp_cost_finding, "counts", None)
     return core.finish(res, "make -C coq Props/C18.vo && coqc (Print Assumptions audit)", "see suites", search=None,
